@@ -1,5 +1,6 @@
 import SJ.Model.NopExact
 import SJ.Proofs.SerdeRT
+import SJ.Proofs.DecodeSound
 /-
 C17, last clause — "Deserialize reconstructs tapes … with NOP runs whose skip counts land exactly on the next
 live entry": `nopsExact pj' = none` for every tape `pj'` obtained by deserializing a serialized well-formed
@@ -359,5 +360,303 @@ theorem wrote_close (vals : Bytes) (r1 r' : RebState) (c : UInt8) (hc : c = tagO
     r1.tape[r1.off], by show r1.tape[r1.off]? = _; exact Array.getElem?_eq_getElem h0, ?_, Or.inl ⟨rfl, ?_⟩⟩
   · rw [ht]; rcases hc with rfl | rfl <;> decide
   · rw [ht]; rcases hc with rfl | rfl <;> decide
+
+-- 4. flat streams and the loop -------------------------------------------------------------------------------------
+
+/-- tag stream / value-word stream made of the known tags, each with its number of value words; string offsets fit
+    the payload and the word of a flagged float carries the float tag -/
+inductive Flat : List UInt8 → List UInt64 → Prop
+  | nil : Flat [] []
+  | nop {T V} : Flat T V → Flat (tagNop :: T) V
+  | atom {T V} (t : UInt8) : t = tagNull ∨ t = tagBoolTrue ∨ t = tagBoolFalse → Flat T V → Flat (t :: T) V
+  | close {T V} (t : UInt8) : t = tagObjectEnd ∨ t = tagArrayEnd → Flat T V → Flat (t :: T) V
+  | num {T V} (t : UInt8) (v : UInt64) : t = tagFloat ∨ t = tagInteger ∨ t = tagUint → Flat T V → Flat (t :: T) (v :: V)
+  | str {T V} (x l : UInt64) : x.toNat < 2^56 → Flat T V → Flat (tagString :: T) (x :: l :: V)
+  | fflag {T V} (w b : UInt64) : tagOf w = tagFloat → Flat T V → Flat (tagFloatWithFlag :: T) (w :: b :: V)
+  | opn {T V} (t : UInt8) (x : UInt64) : t = tagObjectStart ∨ t = tagArrayStart → Flat T V → Flat (t :: T) (x :: V)
+  | root {T V} (x : UInt64) : Flat T V → Flat (tagRoot :: T) (x :: V)
+
+theorem Flat.append {T1 V1 T2 V2} (h1 : Flat T1 V1) (h2 : Flat T2 V2) : Flat (T1 ++ T2) (V1 ++ V2) := by
+  induction h1 with
+  | nil => exact h2
+  | nop _ ih => exact .nop ih
+  | atom t hc _ ih => exact .atom t hc ih
+  | close t hc _ ih => exact .close t hc ih
+  | num t v hc _ ih => exact .num t v hc ih
+  | str x l hx _ ih => exact .str x l hx ih
+  | fflag w b hw _ ih => exact .fflag w b hw ih
+  | opn t x hc _ ih => exact .opn t x hc ih
+  | root x _ ih => exact .root x ih
+
+theorem bind_ok_inv {α β} {x : Res α} {f : α → Res β} {b : β} (h : (x >>= f) = .ok b) : ∃ a, x = .ok a ∧ f a = .ok b := by
+  cases x with
+  | ok a => exact ⟨a, rfl, h⟩
+  | error e => cases h
+  | panic => cases h
+  | diverge => cases h
+
+theorem rebLoop_cons_inv {vals : Bytes} {r r' : RebState} {t : UInt8} {T : List UInt8}
+    (h : rebLoop vals r (t :: T) = .ok r') : ∃ r1, rebStep vals r t = .ok r1 ∧ rebLoop vals r1 T = .ok r' := by
+  simp only [rebLoop] at h
+  exact bind_ok_inv h
+
+/-- one live tag: the invariant survives and the value position advances -/
+theorem live_step {vals : Bytes} {r r' : RebState} {t : UInt8} {w nv : Nat} (hinv : Inv r) (ht : t ≠ tagNop)
+    (hs : rebStep vals r t = .ok r')
+    (hw : ∀ r1, r1.off < r1.tape.size → r1.tape.size < 2^56 → r1.vpos = r.vpos → dispatch vals t r1 = .ok r' →
+      Wrote r1 r' w nv) : Inv r' ∧ r'.vpos = r.vpos + 8 * nv := by
+  obtain ⟨hlt, r1, hf, hd⟩ := step_inv vals r t r' hinv.le ht hs
+  have hwr := hw r1 (by rw [hf.off, hf.size]; exact hlt) (by rw [hf.size]; exact hinv.sz) hf.vpos hd
+  exact ⟨inv_of_wrote hinv hlt hf hwr, by rw [hwr.vpos, hf.vpos]⟩
+
+/-- **the loop invariant.** Every successful run of `rebLoop` over a flat stream keeps `Inv`. -/
+theorem loop_inv (vals : Bytes) {T : List UInt8} {V : List UInt64} (hf : Flat T V) :
+    ∀ r r' : RebState, Inv r → ValsAt vals r.vpos V → rebLoop vals r T = .ok r' → Inv r' := by
+  induction hf with
+  | nil =>
+    intro r r' hinv _ h
+    cases h
+    exact hinv
+  | nop _ ih =>
+    intro r r' hinv hv h
+    obtain ⟨r1, hs, hl⟩ := rebLoop_cons_inv h
+    have := step_nop vals r r1 hinv.le hs
+    subst this
+    exact ih { r with nSkips := r.nSkips + 1 } r' ⟨hinv.le, hinv.sz, hinv.reach⟩ hv hl
+  | atom t hc _ ih =>
+    intro r r' hinv hv h
+    obtain ⟨r1, hs, hl⟩ := rebLoop_cons_inv h
+    obtain ⟨i1, v1⟩ := live_step (w := 1) (nv := 0) hinv (by rcases hc with rfl | rfl | rfl <;> decide) hs
+      (fun r0 h0 _ _ hd => wrote_atom vals r0 r1 t hc h0 hd)
+    exact ih r1 r' i1 (by rw [v1]; exact hv) hl
+  | close t hc _ ih =>
+    intro r r' hinv hv h
+    obtain ⟨r1, hs, hl⟩ := rebLoop_cons_inv h
+    obtain ⟨i1, v1⟩ := live_step (w := 1) (nv := 0) hinv (by rcases hc with rfl | rfl <;> decide) hs
+      (fun r0 h0 _ _ hd => wrote_close vals r0 r1 t hc h0 hd)
+    exact ih r1 r' i1 (by rw [v1]; exact hv) hl
+  | num t v hc _ ih =>
+    intro r r' hinv hv h
+    obtain ⟨r1, hs, hl⟩ := rebLoop_cons_inv h
+    obtain ⟨hv1, hv2, hv3⟩ := valsAt_cons hv
+    obtain ⟨i1, v1⟩ := live_step (w := 2) (nv := 1) hinv (by rcases hc with rfl | rfl | rfl <;> decide) hs
+      (fun r0 h0 _ hp hd => wrote_num vals r0 r1 t hc (by rw [hp]; exact hv1) hd)
+    exact ih r1 r' i1 (by rw [v1]; exact hv3) hl
+  | str x l hx _ ih =>
+    intro r r' hinv hv h
+    obtain ⟨r1, hs, hl⟩ := rebLoop_cons_inv h
+    obtain ⟨hv1, hv2, hv3⟩ := valsAt_cons hv
+    obtain ⟨hv4, hv5, hv6⟩ := valsAt_cons hv3
+    obtain ⟨i1, v1⟩ := live_step (w := 2) (nv := 2) hinv (by decide) hs
+      (fun r0 h0 _ hp hd => wrote_str vals r0 r1 (by rw [hp]; omega) (by rw [hp, hv2]; exact hx) hd)
+    exact ih r1 r' i1 (by rw [v1]; exact hv6) hl
+  | fflag w b hw _ ih =>
+    intro r r' hinv hv h
+    obtain ⟨r1, hs, hl⟩ := rebLoop_cons_inv h
+    obtain ⟨hv1, hv2, hv3⟩ := valsAt_cons hv
+    obtain ⟨hv4, hv5, hv6⟩ := valsAt_cons hv3
+    obtain ⟨i1, v1⟩ := live_step (w := 2) (nv := 2) hinv (by decide) hs
+      (fun r0 h0 _ hp hd => wrote_fflag vals r0 r1 (by rw [hp]; omega) (by rw [hp, hv2]; exact hw) hd)
+    exact ih r1 r' i1 (by rw [v1]; exact hv6) hl
+  | opn t x hc _ ih =>
+    intro r r' hinv hv h
+    obtain ⟨r1, hs, hl⟩ := rebLoop_cons_inv h
+    obtain ⟨hv1, hv2, hv3⟩ := valsAt_cons hv
+    obtain ⟨i1, v1⟩ := live_step (w := 1) (nv := 1) hinv (by rcases hc with rfl | rfl <;> decide) hs
+      (fun r0 h0 hz hp hd => wrote_open vals r0 r1 t hc (by rw [hp]; exact hv1) hz hd)
+    exact ih r1 r' i1 (by rw [v1]; exact hv3) hl
+  | root x _ ih =>
+    intro r r' hinv hv h
+    obtain ⟨r1, hs, hl⟩ := rebLoop_cons_inv h
+    obtain ⟨hv1, hv2, hv3⟩ := valsAt_cons hv
+    obtain ⟨i1, v1⟩ := live_step (w := 1) (nv := 1) hinv (by decide) hs
+      (fun r0 h0 hz hp hd => wrote_root vals r0 r1 h0 (by rw [hp]; exact hv1) hz hd)
+    exact ih r1 r' i1 (by rw [v1]; exact hv3) hl
+
+/-- **Rebuilt tapes have exact NOP runs.** Whatever the prior content of the destination: if `rebuild` succeeds on
+    a flat stream, the scan finds nothing. -/
+theorem rebuild_exact (init : Array UInt64) (tags vals : Bytes) (V : List UInt64) (hn : init.size < 2^56)
+    (hf : Flat tags.toList V) (hV : ValsAt vals 0 V) (tp : Array UInt64) (h : rebuild init tags vals = .ok tp) :
+    Reach tp tp.size := by
+  unfold rebuild at h
+  obtain ⟨s, hl, h⟩ := bind_ok_inv h
+  have hinv : Inv s := loop_inv vals hf { tape := init } s ⟨Nat.zero_le _, hn, fun _ _ _ => Reach.zero⟩ hV hl
+  obtain ⟨⟨tp1, off1⟩, hfl, h⟩ := bind_ok_inv h
+  simp only [] at h
+  split at h
+  · cases h
+  · next hoff =>
+    split at h
+    · cases h
+    · cases h
+      have hoff' : off1 = tp.size := by simpa using hoff
+      by_cases hk : s.nSkips > 0
+      · rw [if_pos hk] at hfl
+        split at hfl
+        · cases hfl
+        · next hgt =>
+          obtain ⟨tp2, e2, z2, fill2, frame2⟩ := flushSkips_spec s.nSkips s.nSkips s.tape s.off (by omega)
+          rw [e2] at hfl
+          cases hfl
+          have r0 : Reach tp s.off := hinv.reach tp z2 (fun j hj => frame2 j (Or.inl hj))
+          have := reach_fill tp s.off s.nSkips r0 fill2 (by omega) (by rw [z2]; exact hinv.sz)
+          rw [hoff'] at this
+          exact this
+      · rw [if_neg hk] at hfl
+        cases hfl
+        have := hinv.reach s.tape rfl (fun _ _ => rfl)
+        rw [hoff'] at this
+        exact this
+
+-- 5. coded streams are flat ----------------------------------------------------------------------------------------
+
+theorem flat_nops : ∀ n : Nat, Flat (nops n) []
+  | 0 => .nil
+  | n + 1 => .nop (flat_nops n)
+
+theorem flat_str {m : Bytes} (hm : m.size < 2^55) {s : List UInt8} {p e : Nat} {T : List UInt8} {V : List UInt64}
+    (h : CodeStr m s p e T V) : Flat T V := by
+  obtain ⟨_, rfl, o, rfl, ho, _⟩ := h
+  exact .str _ _ (by rw [toNat_ofNat_lt (by omega)]; omega) .nil
+
+mutual
+theorem flat_val {m : Bytes} (hm : m.size < 2^55) : ∀ (v : JVal) (p e : Nat) (T : List UInt8) (V : List UInt64),
+    CodeV m v p e T V → Flat T V
+  | .null, p, e, T, V, h => by
+    simp only [CodeV] at h
+    obtain ⟨_, rfl, rfl⟩ := h
+    exact .atom _ (Or.inl rfl) .nil
+  | .bool b, p, e, T, V, h => by
+    simp only [CodeV] at h
+    obtain ⟨_, rfl, rfl⟩ := h
+    exact .atom _ (by cases b <;> simp) .nil
+  | .int w, p, e, T, V, h => by
+    simp only [CodeV] at h
+    obtain ⟨_, rfl, rfl⟩ := h
+    exact .num _ _ (Or.inr (Or.inl rfl)) .nil
+  | .uint w, p, e, T, V, h => by
+    simp only [CodeV] at h
+    obtain ⟨_, rfl, rfl⟩ := h
+    exact .num _ _ (Or.inr (Or.inr rfl)) .nil
+  | .float b f, p, e, T, V, h => by
+    simp only [CodeV] at h
+    obtain ⟨_, ⟨_, rfl, rfl⟩ | ⟨w, hw1, _, rfl, rfl⟩⟩ := h
+    · exact .num _ _ (Or.inl rfl) .nil
+    · exact .fflag _ _ hw1 .nil
+  | .str s, p, e, T, V, h => by
+    simp only [CodeV] at h
+    exact flat_str hm h
+  | .arr es, p, e, T, V, h => by
+    simp only [CodeV] at h
+    obtain ⟨_, T', V', rfl, rfl, hin⟩ := h
+    have := (flat_es hm es _ _ T' V' hin).append (.close tagArrayEnd (Or.inr rfl) .nil)
+    rw [List.append_nil] at this
+    exact .opn _ _ (Or.inr rfl) this
+  | .obj ms, p, e, T, V, h => by
+    simp only [CodeV] at h
+    obtain ⟨_, T', V', rfl, rfl, hin⟩ := h
+    have := (flat_ms hm ms _ _ T' V' hin).append (.close tagObjectEnd (Or.inl rfl) .nil)
+    rw [List.append_nil] at this
+    exact .opn _ _ (Or.inl rfl) this
+theorem flat_es {m : Bytes} (hm : m.size < 2^55) : ∀ (vs : JVals) (lo hi : Nat) (T : List UInt8) (V : List UInt64),
+    CodeEs m vs lo hi T V → Flat T V
+  | .nil, lo, hi, T, V, h => by
+    simp only [CodeEs] at h
+    obtain ⟨_, rfl, rfl⟩ := h
+    exact flat_nops _
+  | .cons v vs, lo, hi, T, V, h => by
+    simp only [CodeEs] at h
+    obtain ⟨p, e, T1, V1, T2, V2, _, _, rfl, rfl, c1, c2⟩ := h
+    have := ((flat_nops (p - lo)).append (flat_val hm v p e T1 V1 c1)).append (flat_es hm vs e hi T2 V2 c2)
+    simpa using this
+theorem flat_ms {m : Bytes} (hm : m.size < 2^55) : ∀ (ms : JMems) (lo hi : Nat) (T : List UInt8) (V : List UInt64),
+    CodeMs m ms lo hi T V → Flat T V
+  | .nil, lo, hi, T, V, h => by
+    simp only [CodeMs] at h
+    obtain ⟨_, rfl, rfl⟩ := h
+    exact flat_nops _
+  | .cons k v ms, lo, hi, T, V, h => by
+    simp only [CodeMs] at h
+    obtain ⟨pk, p, e, Tk, Vk, T1, V1, T2, V2, _, _, _, rfl, rfl, ck, c1, c2⟩ := h
+    have := ((((flat_nops (pk - lo)).append (flat_str hm ck)).append (flat_nops (p - (pk + 2)))).append
+      (flat_val hm v p e T1 V1 c1)).append (flat_ms hm ms e hi T2 V2 c2)
+    simpa using this
+end
+
+theorem flat_root {m : Bytes} (hm : m.size < 2^55) {v : JVal} {p e : Nat} {T : List UInt8} {V : List UInt64}
+    (h : CodeRoot m v p e T V) : Flat T V := by
+  obtain ⟨_, T', V', rfl, rfl, hin⟩ := h
+  exact .root _ ((flat_es hm _ _ _ T' V' hin).append (.root _ .nil))
+
+theorem flat_roots {m : Bytes} (hm : m.size < 2^55) (n : Nat) : ∀ (d : List JVal) (p : Nat) (T : List UInt8)
+    (V : List UInt64), CodeRoots m n d p T V → Flat T V
+  | [], p, T, V, h => by
+    simp only [CodeRoots] at h
+    obtain ⟨_, rfl, rfl⟩ := h
+    exact flat_nops _
+  | v :: vs, p, T, V, h => by
+    simp only [CodeRoots] at h
+    obtain ⟨q, e, T1, V1, T2, V2, _, rfl, rfl, c1, c2⟩ := h
+    have := ((flat_nops (q - p)).append (flat_root hm c1)).append (flat_roots hm n vs e T2 V2 c2)
+    simpa using this
+
+-- 6. the claim -----------------------------------------------------------------------------------------------------
+
+open SJ.Layout in
+/-- **C17, last clause.** Every tape obtained by deserializing the serialization of a tape that obeys the format
+    (freshly parsed, edited, with NOP gaps of any legal shape left by deletions), for every string hash and every
+    prior content of the destination: each NOP word's skip count is exactly the distance to the end of the maximal
+    run of NOP words it belongs to — it lands on the next live entry (or on the end of the tape). -/
+theorem deser_nops_exact (pj : PJ) (d : List JVal) (hash : Bytes → Nat) (hwf : WF pj d) (hsz : pj.tape.size < 2^56)
+    (hb : pj.tape.size * max pj.msg.size pj.strings.size < 2^55) (sec : Sections) (hs : serialize pj hash = .ok sec)
+    (init : Array UInt64) (hi : init.size = sec.tapeSize) (pj' : PJ) (hd : deserializeSections sec init = .ok pj') :
+    nopsExact pj' = none := by
+  obtain ⟨sec', T, V, h1, h2, h3, h4, h5, h6⟩ := serialize_coded pj d hash hwf
+  rw [hs] at h1
+  cases h1
+  have hm : sec.msg.size < 2^55 :=
+    Nat.lt_of_le_of_lt (serialize_msg_bound pj hash _ (Nat.le_max_left _ _) (Nat.le_max_right _ _) sec hs) hb
+  have hflat : Flat sec.tags.toList V := by rw [h4]; exact flat_roots hm _ d 0 T V (h6 hm)
+  have hv0 : ValsAt sec.values 0 V := ⟨[], [], by simp [h5], rfl⟩
+  unfold deserializeSections at hd
+  obtain ⟨tp, hr, hd⟩ := bind_ok_inv hd
+  cases hd
+  exact reach_end (rebuild_exact init sec.tags sec.values V (by omega) hflat hv0 tp hr) _ _
+
+-- 7. the check is not vacuous and strictly stronger than the format ---------------------------------------------------
+
+/-- `[<deleted two-word value> <deleted three words> 5]`: two adjacent deletions leave the gap `2,1,3,2,1` -/
+def gapPJ : PJ :=
+  { tape := #[mkWord tagRoot 11, mkWord tagArrayStart 10, mkWord tagNop 2, mkWord tagNop 1, mkWord tagNop 3, mkWord tagNop 2,
+      mkWord tagNop 1, mkWord tagInteger 0, 5, mkWord tagArrayEnd 1, mkWord tagRoot 0], strings := #[], msg := #[] }
+
+/-- the skip counts of the NOP words of a tape, in order of position (all words, for display) -/
+def nopSkips (pj : PJ) : List Nat :=
+  (pj.tape.toList.filter (fun w => tagOf w == tagNop)).map (fun w => (payloadOf w).toNat)
+
+/-- what `Deserialize` makes of the serialized tape (`none` when either step fails) -/
+def viaSerde (pj : PJ) : Option PJ :=
+  match serialize pj (fun _ => 0) with
+  | .ok sec =>
+    match deserializeSections sec (Array.replicate sec.tapeSize 0) with
+    | .ok pj' => some pj'
+    | _ => none
+  | _ => none
+
+/-- the tape obeys the format (its gap is legal) … -/
+theorem gapPJ_wf : ∃ d, WF gapPJ d := (DecodeSound.wfCheckD_iff gapPJ).mp (by decide +kernel)
+
+/-- … but the scan objects: the NOP at word 3 (skip 1) is followed by a NOP and does not land on the next live entry -/
+example : nopSkips gapPJ = [2, 1, 3, 2, 1] ∧ nopsExact gapPJ = some 3 := by decide +kernel
+
+/-- after `Serialize` / `Deserialize` the run is `5,4,3,2,1` and the scan finds nothing -/
+example : (viaSerde gapPJ).map nopSkips = some [5, 4, 3, 2, 1] ∧ (viaSerde gapPJ).map nopsExact = some none := by
+  decide +kernel
+
+/-- the same through the theorem -/
+example (sec : Sections) (hs : serialize gapPJ (fun _ => 0) = .ok sec) (pj' : PJ)
+    (hd : deserializeSections sec (Array.replicate sec.tapeSize 0) = .ok pj') : nopsExact pj' = none := by
+  obtain ⟨d, hwf⟩ := gapPJ_wf
+  exact deser_nops_exact gapPJ d _ hwf (by decide) (by decide) sec hs _ (by simp) pj' hd
 
 end SJ.NopExact
